@@ -240,3 +240,35 @@ pub fn err_kind(s: &str) -> String {
     let k: String = s.chars().take_while(|c| c.is_alphanumeric() || *c == '_').collect();
     if k.is_empty() { "Err".into() } else { k }
 }
+
+
+/// A hand-written complex loaded through the PUBLIC serde interface: vertices at `pts` (data =
+/// 100 + index), cells as index lists.  The slot order of each cell is tried in both orientations
+/// (first two vertices swapped) until the library accepts the result as a Level 1-3 valid
+/// triangulation; `None` if no combination is accepted.
+pub fn load_complex<const D: usize>(pts: &[Vec<f64>], cells: &[Vec<usize>], rng: &mut Rng) -> Option<DtF<D>> {
+    use serde_json::{json, Value};
+    let vu: Vec<String> = pts.iter().map(|_| rng.uuid().to_string()).collect();
+    let cu: Vec<String> = cells.iter().map(|_| rng.uuid().to_string()).collect();
+    let mut verts: Vec<Value> = vec![json!({"value": null, "version": 0})];
+    for (i, p) in pts.iter().enumerate() {
+        verts.push(json!({"value": {"point": p, "uuid": vu[i], "data": 100 + i as i32}, "version": 1}));
+    }
+    let mut cs: Vec<Value> = vec![json!({"value": null, "version": 0})];
+    for u in &cu { cs.push(json!({"value": {"uuid": u}, "version": 1})); }
+    for mask in 0u32..(1u32 << cells.len().min(10)) {
+        let mut table = serde_json::Map::new();
+        for (ci, c) in cells.iter().enumerate() {
+            let mut order: Vec<usize> = c.clone();
+            if (mask >> ci) & 1 == 1 && order.len() >= 2 { order.swap(0, 1); }
+            table.insert(cu[ci].clone(), Value::Array(order.iter().map(|i| Value::String(vu[*i].clone())).collect()));
+        }
+        let doc = json!({"vertices": verts, "cells": cs, "cell_vertices": Value::Object(table)});
+        let text = doc.to_string();
+        if let Ok(Ok(tds)) = catch(|| serde_json::from_str::<Tds<f64, VData, CData, D>>(&text)) {
+            let dt: DtF<D> = DelaunayTriangulation::from_tds_with_topology_guarantee(tds, FastKernel::new(), TopologyGuarantee::PLManifold);
+            if dt.as_triangulation().validate().is_ok() { return Some(dt); }
+        }
+    }
+    None
+}
